@@ -132,7 +132,13 @@ def run(r):
             rep.require(False, f"C09-WT: {q}: the weight selection for column {col} does not fold to a product (loop-carried value); cannot decide")
             continue
         if len(set(cd)) == 1 and not any(head(x) == "ite" for x in walk(t)):
-            want = ("bin", "*", ("bin", "*", cd[0], ("attr", ("attr", selft, "_chain_weights"), chain_attr)), ("attr", ("attr", selft, "_cdr_weights"), cdr_attr))
+            nts = r.A._namedtuples(s.func.module)
+
+            def field(holder, cls, a):
+                # a NamedTuple record is read positionally: record.a == record[index of a]
+                fs = nts.get(T + cls)
+                return ("item", ("attr", selft, holder), fs.index(a)) if fs is not None and a in fs else ("attr", ("attr", selft, holder), a)
+            want = ("bin", "*", ("bin", "*", cd[0], field("_chain_weights", "ChainWeights", chain_attr)), field("_cdr_weights", "CdrWeights", cdr_attr))
             ok = ctx.rf(t).same(ctx.rf(want))
             found = ctx.show_rf(ctx.rf(t), 200)
             c = strip(cd[0])
@@ -147,6 +153,17 @@ def run(r):
     rep.analysed(base + "__init__")
     for holder, cls, attrs in (("_chain_weights", "ChainWeights", ["alpha_weight", "beta_weight"]), ("_cdr_weights", "CdrWeights", ["cdr1_weight", "cdr2_weight", "cdr3_weight"])):
         v = strip(init.env.get(("@attr", selft, holder), NONE))
+        fields = r.A._namedtuples(init.func.module).get(T + cls)
+        if fields is not None:
+            # the weights record is a NamedTuple: field a of the stored tuple must be the constructor's parameter a
+            for a in attrs:
+                through = v[1][fields.index(a)] if head(v) == "tuple" and a in fields and len(v[1]) == len(fields) else None
+                rep.ob("C09-WT", base + "__init__", through is not None and strip(through) == ("param", a), f"self.{holder}.{a} is the constructor's '{a}'", where_of(r.P, init.func, init.func.node),
+                       expected=f"{cls}(...).{a} <- parameter {a}", found=f"{a} <- {show(through, 30) if through is not None else show(v, 60)}", key=f"chain {holder}.{a}")
+            continue
+        if (T + cls + ".__init__") not in r.P.functions:
+            rep.require(False, f"C09-WT: the weights record {cls} is neither a class with a constructor nor a NamedTuple; cannot decide")
+            continue
         hs = r.A.summary(T + cls + ".__init__")
         bind = r.A.bind_call(hs, v, self_term=("param", "self")) if head(v) == "call" and strip(v[1]) == ("glob", T + cls) else None
         for a in attrs:
